@@ -32,6 +32,7 @@ unsigned probe_x87_top(void);
 #define __builtin_compare_and_swap(p, o, n) __atomic_compare_exchange_n(p, o, n, 0, 5, 5)
 #endif
 typedef long *LP;
+typedef struct {} S0;
 typedef struct { char a; } S1;
 typedef struct { int a; char b; } S8;
 typedef struct { double x; float y; } S16F;
@@ -62,7 +63,7 @@ TYPES = {
 }
 INTS = ['char', 'schar', 'uchar', 'short', 'ushort', 'int', 'uint', 'long', 'ulong']
 FLTS = ['float', 'double', 'ldouble']
-STRUCTS = {'S1': '{1}', 'S8': '{1, 2}', 'S16F': '{1.5, 2.5f}', 'S16M': '{3, 4.5}', 'S24': '{1, 2, 3}',
+STRUCTS = {'S0': '{}', 'S1': '{1}', 'S8': '{1, 2}', 'S16F': '{1.5, 2.5f}', 'S16M': '{3, 4.5}', 'S24': '{1, 2, 3}',
            'S32': '{1.25L, 7}', 'S7': '{{1, 2, 3, 4, 5, 6, 7}}', 'U8': '{5}'}
 
 
@@ -278,7 +279,7 @@ def case_function(idx, kind, tkey, name, body):
         decls = (f'{s} a = {STRUCTS[s]}, b = {STRUCTS[s]}, r = {STRUCTS[s]}, r2 = {STRUCTS[s]}; int k = 1; int ji = 0; '
                  f'{s} sarr[2] = {{{STRUCTS[s]}, {STRUCTS[s]}}}; ')
         reinit = 'k = !k; '
-        val = 'printf(" val %d", (int)((unsigned char *)&r)[0]);'
+        val = 'printf(" val %d", (int)((unsigned char *)&r)[0]);' if s != 'S0' else 'printf(" val %d", (int)sizeof(r));'
     return (f'static void case_{idx}(long n) {{\n  {decls}\n'
             f'  unsigned long r0 = probe_rsp(); unsigned t0 = probe_x87_top();\n'
             f'  for (long i = 0; i < n; i++) {{ {reinit}{body} }}\n'
